@@ -785,3 +785,38 @@ func TestVerifDev_C17Replay(t *testing.T) {
 		t.Fatalf("%s", m.msg)
 	}
 }
+
+// TestVerifDev_C17Chunks prints the chunk layout of the document of a case file (development aid).
+func TestVerifDev_C17Chunks(t *testing.T) {
+	p := os.Getenv("VERIF_C17_CHUNKS")
+	if p == "" {
+		t.Skip("development aid; set VERIF_C17_CHUNKS=<file>")
+	}
+	b, err := os.ReadFile(p)
+	if err != nil {
+		t.Fatal(err)
+	}
+	var cf c17CaseFile
+	if err := json.Unmarshal(b, &cf); err != nil {
+		t.Fatal(err)
+	}
+	var doc interface{}
+	_ = json.Unmarshal(cf.Doc, &doc)
+	ctx := sql.NewEmptyContext()
+	d, err := verifJStore(ctx, NewTestNodeStore(), doc)
+	if err != nil {
+		t.Fatal(err)
+	}
+	_ = d.m.WalkNodes(ctx, func(ctx context.Context, n *Node) error {
+		if n.Level() >= 1 {
+			for i := 0; i < n.Count(); i++ {
+				k := n.GetKey(i)
+				fmt.Printf("level %d key %d: state=%d path=%s raw=%q\n", n.Level(), i, k[0], MySqlJsonPathFromKey(k), k)
+			}
+		} else {
+			v := n.GetValue(0)
+			fmt.Printf("  leaf %d bytes: %s\n", len(v), verifJShort(v))
+		}
+		return nil
+	})
+}
